@@ -14,8 +14,6 @@ Lemma len_cons (c : N) l : len (c :: l) = 1 + len l.
 Proof. unfold len. cbn [length]. lia. Qed.
 Lemma len_nil : len (@nil N) = 0. Proof. reflexivity. Qed.
 
-Lemma ck_ok z : INT_MIN <= z <= INT_MAX -> ck z = Some z.
-Proof. intros H. unfold ck. destruct (Z.leb_spec INT_MIN z); [|lia]. destruct (Z.leb_spec z INT_MAX); [|lia]. reflexivity. Qed.
 Lemma left_c_ok s n : 0 <= n <= len s -> exists r, left_c s n = Some r /\ len r = n.
 Proof.
   intros H. unfold left_c, truncate_c. destruct (Z.leb_spec 0 n); [|lia]. destruct (Z.leb_spec n (len s)); [|lia]. cbn [andb].
@@ -154,13 +152,13 @@ Proof.
 Qed.
 
 (* ---- one token: Token::appendToString on (dest, t_pendingRemove) ---- *)
-Definition env_ok (m : menv) : Prop := len (mfile m) <= INT_MAX.
+Definition env_ok (m : menv) : Prop := len (mfile m) <= INT_MAX /\ len (mfunc m) <= INT_MAX - 1.
 
 Lemma value_c_total k m : env_ok m -> cfg_okb src_cfg = true -> exists v, value_c k m = Some v.
 Proof.
   intros He Hc. destruct k; cbn [value_c]; eauto.
-  - destruct (short_file_total base (mfile m) He) as (r & -> & _). eauto.
-  - destruct (cleanup_cfg_total src_cfg Hc (mfunc m)) as (r & Hr & _). unfold cleanup. rewrite Hr. eauto.
+  - destruct (short_file_total base (mfile m) (proj1 He)) as (r & -> & _). eauto.
+  - destruct (cleanup_cfg_total src_cfg Hc (mfunc m) (proj2 He)) as (r & Hr & _). unfold cleanup. rewrite Hr. eauto.
   - destruct (lookup name (attrs m)); eauto.
 Qed.
 
